@@ -1076,7 +1076,7 @@ pub fn run(spec: &RunSpec) -> ! {
     }
     let nclosers = if prop == "C11" { 1 + sim::work(3) as usize } else { 1 };
     let concurrent_add = added.is_some() && sim::work(2) == 0;
-    let rejected_add = sim::work(4) == 0;
+    let rejected_add = sim::work(4) < (if prop == "C12" { 2 } else { 1 });
     let rejected_times = 1 + sim::work(3);
     // close (and the drop of the instance that follows) while deliveries are still running
     let early_close = (prop == "C11" && sim::work(3) != 0) || ((prop == "C03" || prop == "C01") && sim::work(2) == 0);
